@@ -35,7 +35,7 @@ var emptyFrameSize = []byte{0, 0, 0, 0}
 // to grow unbounded.
 func NewTMemoryOutputBuffer(size uint) *TMemoryOutputBuffer {
 	buffer := &TMemoryOutputBuffer{size, thrift.NewTMemoryBuffer()}
-	buffer.Write(emptyFrameSize)
+	buffer.TMemoryBuffer.Write(emptyFrameSize)
 	return buffer
 }
 
@@ -79,7 +79,9 @@ func (f *TMemoryOutputBuffer) WriteByte(c byte) error {
 // Reset clears the buffer
 func (f *TMemoryOutputBuffer) Reset() {
 	f.TMemoryBuffer.Reset()
-	f.Write(emptyFrameSize)
+	// The placeholder for the frame size is not payload: writing it through
+	// the limit check recursed without end for a limit below its four bytes.
+	f.TMemoryBuffer.Write(emptyFrameSize)
 }
 
 // Bytes retrieves the framed contents of the buffer.
